@@ -162,7 +162,8 @@ def check(run) -> None:
     run.cov["rule"] = ("a case = one input text run through parse()+emit() in an observed worker; distinct = distinct input; non-trivial = "
                        "every slot x payload script, stdlib file, fragment and expression script (noise counts only when it is not simply accepted)")
     run.assumptions += ["effects are observed through CPython's audit hook (PEP 578), planted canaries, os.environ / cwd / recursion-limit "
-                        "comparison and a module-state snapshot; an effect invisible to all of these is not detected",
+                        "comparison and a module-state snapshot (bindings named _verif*, the REDUINO_VERIF hook's own log, left out); an effect "
+                        "invisible to all of these is not detected",
                         f"'promptly' = at most {R.LIMIT_S} s of CPU time of the worker for one input (inputs up to 200 kB)",
                         f"workers run with an address-space limit of {R.MEM_LIMIT >> 20} MiB",
                         "'text that is not Python' = CPython's compile() refuses it (reference leg, nothing executed)",
